@@ -601,12 +601,16 @@ pub struct A2sServer {
     pub rounds: [u32; 3],
     /// challenge values to issue (cycled)
     pub challenges: Vec<[u8; 4]>,
+    /// if non-empty for a section: the challenges issued for that section, in order (cycled)
+    pub section_challenges: [Vec<[u8; 4]>; 3],
     // --- state
     issued: [Vec<[u8; 4]>; 3],
     attempt: [usize; 3],
     next_challenge: usize,
     /// requests seen per section: (bytes, carried the expected challenge?)
     pub seen: [Vec<Vec<u8>>; 3],
+    /// every challenge issued per section, in order (never cleared)
+    pub issued_log: [Vec<[u8; 4]>; 3],
     pub protocol_errors: Vec<String>,
 }
 
@@ -618,10 +622,12 @@ impl A2sServer {
             plan: [vec![Behaviour::Answer(info)], vec![Behaviour::Answer(players)], vec![Behaviour::Answer(rules)]],
             rounds: [0; 3],
             challenges: vec![[0x12, 0x34, 0x56, 0x78]],
+            section_challenges: [vec![], vec![], vec![]],
             issued: [vec![], vec![], vec![]],
             attempt: [0; 3],
             next_challenge: 0,
             seen: [vec![], vec![], vec![]],
+            issued_log: [vec![], vec![], vec![]],
             protocol_errors: vec![],
         }
     }
@@ -658,10 +664,13 @@ impl Server for A2sServer {
         let s = sec as usize;
         self.seen[s].push(data.to_vec());
         // is this a fresh attempt (un-challenged request) or a continuation carrying our last challenge?
-        let fresh = match sec {
-            Section::Info => tail.is_empty(),
-            _ => tail == [0xff, 0xff, 0xff, 0xff],
-        };
+        // a request carrying the challenge just issued is its echo, even if that challenge happens to be FF FF FF FF
+        let is_echo = self.issued[s].last().map(|ch| tail == ch).unwrap_or(false);
+        let fresh = !is_echo
+            && match sec {
+                Section::Info => tail.is_empty(),
+                _ => tail == [0xff, 0xff, 0xff, 0xff],
+            };
         if fresh {
             // a second un-challenged request for the same section is a retry: next attempt
             if self.seen[s].len() > 1 {
@@ -693,6 +702,7 @@ impl Server for A2sServer {
                     let ch = self.challenges[self.next_challenge % self.challenges.len()];
                     self.next_challenge += 1;
                     self.issued[s].push(ch);
+                    self.issued_log[s].push(ch);
                     let mut d = vec![0xff, 0xff, 0xff, 0xff, 0x41];
                     d.extend(ch);
                     conn.reply(d);
@@ -700,9 +710,10 @@ impl Server for A2sServer {
             }
             Behaviour::Answer(dgrams) => {
                 if (self.issued[s].len() as u32) < self.rounds[s] {
-                    let ch = self.challenges[self.next_challenge % self.challenges.len()];
+                    let ch = if self.section_challenges[s].is_empty() { self.challenges[self.next_challenge % self.challenges.len()] } else { self.section_challenges[s][self.issued_log[s].len() % self.section_challenges[s].len()] };
                     self.next_challenge += 1;
                     self.issued[s].push(ch);
+                    self.issued_log[s].push(ch);
                     let mut d = vec![0xff, 0xff, 0xff, 0xff, 0x41];
                     d.extend(ch);
                     conn.reply(d);
